@@ -114,6 +114,14 @@ pub const SA_RESTORER: libc::c_int = 0x0400_0000;
 pub fn install_foreign(sig: libc::c_int, kind: &str) -> bool {
     unsafe {
         let mut sa: libc::sigaction = std::mem::zeroed();
+        let (kind, masked) = match kind.split_once('~') {
+            Some((k, m)) => (k, m.parse::<libc::c_int>().ok()),
+            None => (kind, None),
+        };
+        libc::sigemptyset(&mut sa.sa_mask);
+        if let Some(m) = masked {
+            libc::sigaddset(&mut sa.sa_mask, m);
+        }
         let (kind, extra) = match kind.split_once('+') {
             Some((k, f)) => (k, libc::c_int::from_str_radix(f, 16).unwrap_or(0)),
             None => (kind, 0),
@@ -153,7 +161,13 @@ pub fn disposition(sig: libc::c_int, lib_handler: Option<usize>) -> String {
         } else if h == libc::SIG_IGN {
             "ign".into()
         } else if Some(h) == lib_handler {
-            format!("lib:{}", (old.sa_flags & !SA_RESTORER) as u32)
+            // the library installs its dispatcher with an empty mask: anything else is reported
+            let masked: Vec<String> = (1..65).filter(|&k| libc::sigismember(&old.sa_mask, k) == 1).map(|k| k.to_string()).collect();
+            if masked.is_empty() {
+                format!("lib:{}", (old.sa_flags & !SA_RESTORER) as u32)
+            } else {
+                format!("lib:{}+mask[{}]", (old.sa_flags & !SA_RESTORER) as u32, masked.join(","))
+            }
         } else if let Some(f) = foreign_classify(h) {
             f
         } else {
